@@ -358,13 +358,39 @@ fn consistent(inputs: &[Input]) -> bool {
     utxos.len() == a && nonces.len() == b
 }
 
-fn gen_tx(ctx: &mut Ctx, p: &Pools, seed: u64) -> (Transaction, &'static str) {
-    use fuel_tx::field::{Inputs, Outputs};
+/// policies over all 64 masks (cycled so that every mask occurs), every policy type with boundary values
+/// (Maturity / Expiration within u32: larger values do not survive the canonical codec, finding F1 of C01)
+fn gen_policies(ctx: &mut Ctx, mask_counter: &mut u32) -> fuel_tx::policies::Policies {
+    use fuel_tx::policies::{Policies, PolicyType};
+    let mask = *mask_counter % 64;
+    *mask_counter += 1;
+    let mut pol = Policies::new();
+    let types = [PolicyType::Tip, PolicyType::WitnessLimit, PolicyType::Maturity, PolicyType::MaxFee, PolicyType::Expiration, PolicyType::Owner];
+    for t in types {
+        if mask & t.bit().bits() != 0 {
+            let v = match t {
+                PolicyType::Maturity | PolicyType::Expiration => *ctx.rng.pick(&[0u64, 1, 2, u32::MAX as u64 - 1, u32::MAX as u64, 12345]),
+                PolicyType::Owner => *ctx.rng.pick(&[0u64, 1, 2, 7, 255, u16::MAX as u64, u64::MAX]),
+                _ => ctx.rng.word(),
+            };
+            pol.set(t, Some(v));
+        }
+    }
+    ctx.count(&format!("policies.mask.{mask:02}"));
+    if mask & PolicyType::Owner.bit().bits() != 0 { ctx.count("policies.owner-set"); }
+    if mask & PolicyType::Expiration.bit().bits() != 0 { ctx.count("policies.expiration-set"); }
+    pol
+}
+
+fn gen_tx(ctx: &mut Ctx, p: &Pools, seed: u64, mask_counter: &mut u32) -> (Transaction, &'static str) {
+    use fuel_tx::field::{Inputs, Outputs, Policies as _};
     macro_rules! charge { ($t:ty, $name:expr, $wrap:path) => {{
         let (mut tx, _) = TransactionFactory::<_, $t>::from_seed(seed).next().unwrap();
         let mut ins = tx.inputs().clone(); let mut outs = tx.outputs().clone();
         remap(ctx, p, &mut ins, &mut outs);
         if consistent(&ins) { *tx.inputs_mut() = ins; *tx.outputs_mut() = outs; }
+        // 3 of 4 transactions get generated policies (the factory only ever sets a few of them)
+        if !ctx.rng.chance(1, 4) { *tx.policies_mut() = gen_policies(ctx, mask_counter); ctx.count(concat!("policies.kind.", $name)); }
         ($wrap(tx), $name)
     }} }
     match ctx.rng.below(11) {
@@ -444,6 +470,7 @@ pub fn run(ctx: &mut Ctx) {
     }
     let nseq = ctx.n(24, 400);
     let mut seed = ctx.seed.wrapping_mul(1_000_003);
+    let mut mask_counter: u32 = ctx.seed as u32;
     for s in 0..nseq {
         let (size, start) = match s % 6 { 5 => (1, 0), 0 => (2, 0), 1 => (3, 1), 2 => (6, 0), 3 => (default, default - 1 - ctx.rng.below(6) as u32), _ => (default, 0) };
         let mut rc = RingCtx::new(size, start);
@@ -454,7 +481,7 @@ pub fn run(ctx: &mut Ctx) {
         for _ in 0..len {
             seed = seed.wrapping_add(1);
             // sometimes the very same transaction again (all its keys must be found, nothing new allocated)
-            let (tx, kind) = if !history.is_empty() && ctx.rng.chance(1, 5) { ctx.count("repeat"); ctx.rng.pick(&history).clone() } else { gen_tx(ctx, &p, seed) };
+            let (tx, kind) = if !history.is_empty() && ctx.rng.chance(1, 5) { ctx.count("repeat"); ctx.rng.pick(&history).clone() } else { gen_tx(ctx, &p, seed, &mut mask_counter) };
             history.push((tx.clone(), kind));
             one_tx(ctx, &mut rc, &tx, kind);
         }
